@@ -1,6 +1,6 @@
 (* C07 — a failing target fails the run and blocks everything depending on it.
-   Property theorems only; proofs are in Proofs/SysC07.v. *)
-From Zinoma.Proofs Require Import SysOneShot SysC07.
+   Property theorems only; proofs are in Proofs/SysC07.v, SysNeeded.v, SysFailRun.v. *)
+From Zinoma.Proofs Require Import SysOneShot SysC07 SysFailRun SysWitness.
 
 (* one-shot: once a target has failed it never succeeds in this run *)
 Theorem C07_failed_never_succeeds :
@@ -22,3 +22,37 @@ Theorem C07_blocked_until_success :
     reachable fx watch g roots s -> g !! d = Some (kd, ddeps) -> kd <> AAggregate -> ObSucc d ∉ hist s ->
     forall x, (x = d \/ tdep g x d) -> ~ (forall k, ready g (hist s) k x).
 Proof. intros fx watch g roots s d kd ddeps. exact (blocked fx g roots watch s d kd ddeps). Qed.
+
+(* "FAILS THE RUN".  One-shot, any closed or open graph, pinned or repaired handlers, any interleaving and merge order, no
+   termination signal (`LSignal ∉ ls`: a SIGINT ends the run in its own way, C10): once a target has failed, the run is never
+   in a successful end — not waiting for a signal with its services alive, not terminating or exited with status 0. *)
+Theorem C07_failure_excludes_success :
+  forall (fx : bool) (g : graph) (roots : list tid) (ls : list label) (s : sys) (t : tid),
+    run_labels fx false (init_sys g roots) ls = Some s -> LSignal ∉ ls -> ObFail t ∈ hist s ->
+    ph s <> PWaitTerm /\ ph s <> PTerminating SOk /\ ph s <> PExited SOk.
+Proof. exact failure_excludes_success. Qed.
+
+(* ... and when nothing can happen any more it HAS exited, with an error status naming a target that did fail: it does not hang
+   in the root loop either (the error report is in the root's queue and the root is still reading: a failed target is needed by a
+   requested one, so the set of unacknowledged requested targets never empties — SysNeeded.v, SysRoot.v). *)
+Theorem C07_failure_fails_the_run :
+  forall (fx : bool) (g : graph) (roots : list tid) (ls : list label) (s : sys) (t : tid),
+    run_labels fx false (init_sys g roots) ls = Some s -> LSignal ∉ ls -> ObFail t ∈ hist s ->
+    quiescent fx false s = true -> exists t', ph s = PExited (SErr t') /\ ObFail t' ∈ hist s.
+Proof. exact failure_fails_the_run. Qed.
+
+(* the hypotheses are met: `2: [5]`, `5` an aggregate of `[1, 3]`, `7` unrelated; 1 fails while 3 goes on and succeeds; the run ends
+   quiescent, exited with the status naming 1; 2 never started, 7 never started *)
+Example C07_failing_run :
+  let g : graph := <[1%N := (ABuild, [])]> (<[3%N := (ABuild, [])]> (<[5%N := (AAggregate, [1%N; 3%N])]>
+                   (<[2%N := (ABuild, [5%N])]> (<[7%N := (ABuild, [])]> ∅)))) in
+  let ls := [LDeliver 2%N true; LDeliver 5%N true; LDeliver 1%N true; LBuildDone 1%N RFailed; LDeliver 3%N true;
+             LBuildDone 3%N RCompleted; LDeliver 5%N true; LDeliver 1%N true; LDeliver 3%N true; LDeliver 5%N true;
+             LDeliver 5%N true; LDeliver 5%N true; LDeliver 2%N true; LDeliver 2%N true; LRoot; LTermActor 1%N;
+             LTermActor 3%N; LTermActor 7%N; LTermActor 5%N; LTermActor 2%N; LJoin] in
+  exists s,
+    run_labels true false (init_sys g [2%N]) ls = Some s /\
+    (forallb (fun l => match l with LSignal => false | _ => true end) ls && quiescent true false s && bool_decide (ph s = PExited (SErr 1%N)) &&
+     bool_decide (hist s = [ObStart 1%N; ObFail 1%N; ObStart 3%N; ObSucc 3%N; ObExit 1%N; ObExit 3%N; ObExit 7%N; ObExit 5%N;
+                            ObExit 2%N])) = true.
+Proof. apply witness_intro. vm_compute. reflexivity. Qed.
